@@ -89,8 +89,8 @@ def deviations(data, tier, pairs=False):
             yield ('leb:' + t.role, 'field#%d(%s)=%d padded %d->%d bytes' % (i, t.role, t.value, orig, L), (lambda: wp.emit(hdr, secs)))
         t.length = orig
     # custom sections at every section boundary
-    names = ['', 'x', 'producers', 'name'] if tier == 'thorough' else ['x', 'name']
-    payloads = [b'', b'\x01\x02\x03', bytes(range(200))] if tier == 'thorough' else [b'\x01\x02\x03']
+    names = ['', 'x', 'producers', 'name'] if tier == 'thorough' else ['', 'x', 'name']
+    payloads = [b'', b'\x01\x02\x03', bytes(range(200))] if tier == 'thorough' else [b'', b'\x01\x02\x03']   # an empty payload makes the name the last bytes of the section (and of the file at the last boundary)
     for pos in range(len(secs) + 1):
         for nm in names:
             for pl in payloads:
